@@ -609,6 +609,12 @@ class Interp:
         except (ModelUB, Thrown) as ex:
             if getattr(ex, "site", None) is None and f.in_repo():
                 ex.site = (f.pkey, f.pqn, f.qn)  # innermost repository function on the stack
+            if isinstance(ex, Thrown) and f.decl.get("noexcept") and f.in_repo() and not f.decl.get("dtor"):
+                # an exception leaves a function declared noexcept: std::terminate, the caller never sees the exception
+                ub = ModelUB("std::terminate: %s leaves %s, which is declared noexcept" % (
+                    (ex.cls or "an exception").split("::")[-1], f.pqn))
+                ub.site = (f.pkey, f.pqn, f.qn)
+                raise ub
             raise
         finally:
             self.frames.pop()
